@@ -271,6 +271,64 @@ def blockRule (p : Prefs) (lv : Nat) (kwText : Cps) (its : List EItem) (body : C
       ++ [{ v := .str [123], ty := t_None },
           { v := .str (body ++ p.lineSeparator ++ [125]), ty := t_None, f := { indent := true } }]))
 
+/-- `rulesText` of `do_CSSPageRule` (`:630-637`): the margin rules' texts, each followed by the line separator -/
+def pageRulesText (p : Prefs) (texts : List Cps) : Cps :=
+  (texts.flatMap fun t => if !t.isEmpty then [t, p.lineSeparator] else []).flatten
+
+/-- the `Out` calls of `do_CSSPageRule` (`:643-655`) before the closing brace -/
+def pageCalls (p : Prefs) (k selText styleText rulesText : Cps) : List Call :=
+  [{ v := .str k, ty := t_None }, { v := .str selText, ty := t_None }, { v := .str [123], ty := t_None }]
+  ++ (if !styleText.isEmpty then
+        (if rulesText.isEmpty then
+           [({ v := .str (styleText ++ p.lineSeparator), ty := t_None, f := { indent := true } } : Call)]
+         else [{ v := .str styleText, ty := t_styletext, f := { indent := true, space := false } }])
+      else [])
+  ++ (if !rulesText.isEmpty then
+        [({ v := .str rulesText, ty := t_None, f := { indent := true } } : Call)] else [])
+
+/-- `rulesout` of `do_CSSMediaRule` (`:597-603`) -/
+def mediaRulesOut (p : Prefs) (lv : Nat) (texts : List Cps) : List Cps :=
+  texts.flatMap fun t => if !t.isEmpty then [indentblock p t (lv + 1), p.lineSeparator] else []
+
+/-- `do_CSSImportRule` / `do_CSSNamespaceRule` after `_atkeyword`: `out.value(end=';')` -/
+def importTail (p : Prefs) (lv : Nat) (k : Cps) (cs : List Call) : Cps :=
+  value (runCalls p (lv + 1) ([({ v := .str k, ty := t_None } : Call)] ++ cs)) [59]
+
+/-- `do_CSSMediaRule` (`:572-614`) after `_atkeyword`; `mediaText` is `do_stylesheets_medialist(rule.media)`,
+`its` the evaluated `rule.seq`, `texts` the `cssText`s of the nested rules -/
+def mediaTail (p : Prefs) (lv : Nat) (k mediaText : Cps) (name : Option Cps) (its : List EItem) (texts : List Cps) : Cps :=
+  let out1 : List Cps := [k, if p.spacer.isEmpty then [32] else p.spacer, mediaText]
+  let out2 : List Cps := match name with
+    | some n => if n.isEmpty then out1 else
+        out1 ++ [p.spacer, value (runCalls p (lv + 1)
+          ([({ v := .str (pyString n), ty := t_None } : Call)] ++ seqCalls its))]
+    | none => out1
+  let out3 := out2 ++ [p.paranthesisSpacer, [123], p.lineSeparator]
+  let rulesout : List Cps := mediaRulesOut p lv texts
+  if !p.keepEmptyRules && allWs rulesout.flatten then []
+  else (out3 ++ rulesout ++ [rep (lv + (if p.indentClosingBrace then 1 else 0)) p.indent ++ [125]]).flatten
+
+/-- `do_CSSPageRule` (`:643-661`) after `_atkeyword` -/
+def pageTail (p : Prefs) (lv : Nat) (k : Cps) (sel : List EItem) (styleText rulesText : Cps) : Cps :=
+  let selText := value (runCalls p (lv + 1) (pageSelCalls sel))
+  -- `self._level -= 1; out.append('}'); self._level += 1`
+  value (append p lv (runCalls p (lv + 1) (pageCalls p k selText styleText rulesText)) (.str [125]) t_None)
+
+/-- `do_MarginRule` (`:704-714`) after `_atkeyword` -/
+def marginTail (p : Prefs) (lv : Nat) (k styleText : Cps) : Cps :=
+  value (runCalls p (lv + 1)
+    [{ v := .str k, ty := t_ATKEYWORD }, { v := .str [123], ty := t_None },
+     { v := .str (indentblock p styleText (lv + 1) ++ p.lineSeparator), ty := t_None },
+     { v := .str [125], ty := t_None }])
+
+/-- `do_CSSStyleRule` (`:800-816`) once selector and declaration texts are known (`selectorText` is not empty) -/
+def styleTail (p : Prefs) (lv sl : Nat) (selectorText styleText : Cps) : Cps :=
+  if styleText.isEmpty then
+    (if p.keepEmptyRules then selectorText ++ p.paranthesisSpacer ++ [123, 125] else [])
+  else indentblock p
+    (selectorText ++ p.paranthesisSpacer ++ [123] ++ p.lineSeparator ++ indentblock p styleText (lv + 1)
+      ++ p.lineSeparator ++ rep (lv + (if p.indentClosingBrace then 1 else 0)) p.indent ++ [125]) sl
+
 mutual
 /-- `rule.cssText` under preferences `p`; `lv` is `self._level`, `sl` is `self._selectorlevel` -/
 def doRule (p : Prefs) (lv sl : Nat) : Rule → Except Err Cps
@@ -280,15 +338,13 @@ def doRule (p : Prefs) (lv sl : Nat) : Rule → Except Err Cps
     if wf then
       match atKeyword p atk kw with
       | .error e => .error e
-      | .ok k => pure (value (runCalls p (lv + 1)
-          ([({ v := .str k, ty := t_None } : Call)] ++ importCalls p hs (evalItems p lv items))) [59])
+      | .ok k => pure (importTail p lv k (importCalls p hs (evalItems p lv items)))
     else pure []
   | .namespace_ wf atk kw _ _ items =>
     if wf then
       match atKeyword p atk kw with
       | .error e => .error e
-      | .ok k => pure (value (runCalls p (lv + 1)
-          ([({ v := .str k, ty := t_None } : Call)] ++ namespaceCalls (evalItems p lv items))) [59])
+      | .ok k => pure (importTail p lv k (namespaceCalls (evalItems p lv items)))
     else pure []
   | .media mwf atk kw media name items rules =>
     -- `do_CSSMediaRule` (`:560-614`)
@@ -296,46 +352,21 @@ def doRule (p : Prefs) (lv sl : Nat) : Rule → Except Err Cps
     else match atKeyword p atk kw with
       | .error e => .error e
       | .ok k =>
-        let out1 : List Cps := [k, if p.spacer.isEmpty then [32] else p.spacer, serObj p lv media]
-        let out2 : List Cps := match name with
-          | some n => if n.isEmpty then out1 else
-              out1 ++ [p.spacer, value (runCalls p (lv + 1)
-                ([({ v := .str (pyString n), ty := t_None } : Call)] ++ seqCalls (evalItems p lv items)))]
-          | none => out1
-        let out3 := out2 ++ [p.paranthesisSpacer, [123], p.lineSeparator]
         match doRules p lv sl rules with
         | .error e => .error e
-        | .ok texts =>
-          let rulesout : List Cps := texts.flatMap fun t =>
-            if !t.isEmpty then [indentblock p t (lv + 1), p.lineSeparator] else []
-          if !p.keepEmptyRules && allWs rulesout.flatten then pure []
-          else pure (out3 ++ rulesout
-            ++ [rep (lv + (if p.indentClosingBrace then 1 else 0)) p.indent ++ [125]]).flatten
+        | .ok texts => pure (mediaTail p lv k (serObj p lv media) name (evalItems p lv items) texts)
   | .page wf atk kw sel style rules =>
     -- `do_CSSPageRule` (`:616-663`)
     match doRules p lv sl rules with
     | .error e => .error e
     | .ok texts =>
-      let rulesText : Cps := (texts.flatMap fun t => if !t.isEmpty then [t, p.lineSeparator] else []).flatten
-      match doDecl p lv style rulesText.isEmpty with
+      match doDecl p lv style (pageRulesText p texts).isEmpty with
       | .error e => .error e
       | .ok styleText =>
-        if (!styleText.isEmpty || !rulesText.isEmpty) && wf then
+        if (!styleText.isEmpty || !(pageRulesText p texts).isEmpty) && wf then
           match atKeyword p atk kw with
           | .error e => .error e
-          | .ok k =>
-            let selText := value (runCalls p (lv + 1) (pageSelCalls (evalItems p lv sel)))
-            let cs : List Call :=
-              [{ v := .str k, ty := t_None }, { v := .str selText, ty := t_None }, { v := .str [123], ty := t_None }]
-              ++ (if !styleText.isEmpty then
-                    (if rulesText.isEmpty then
-                       [({ v := .str (styleText ++ p.lineSeparator), ty := t_None, f := { indent := true } } : Call)]
-                     else [{ v := .str styleText, ty := t_styletext, f := { indent := true, space := false } }])
-                  else [])
-              ++ (if !rulesText.isEmpty then
-                    [({ v := .str rulesText, ty := t_None, f := { indent := true } } : Call)] else [])
-            -- `self._level -= 1; out.append('}'); self._level += 1`
-            pure (value (append p lv (runCalls p (lv + 1) cs) (.str [125]) t_None))
+          | .ok k => pure (pageTail p lv k (evalItems p lv sel) styleText (pageRulesText p texts))
         else pure []
   | .margin atk kw wf style =>
     -- `do_MarginRule` (`:675-716`)
@@ -349,10 +380,7 @@ def doRule (p : Prefs) (lv sl : Nat) : Rule → Except Err Cps
         if !styleText.isEmpty && wf then
           match atKeyword p a kw with
           | .error e => .error e
-          | .ok k => pure (value (runCalls p (lv + 1)
-              [{ v := .str k, ty := t_ATKEYWORD }, { v := .str [123], ty := t_None },
-               { v := .str (indentblock p styleText (lv + 1) ++ p.lineSeparator), ty := t_None },
-               { v := .str [125], ty := t_None }]))
+          | .ok k => pure (marginTail p lv k styleText)
         else pure []
   | .fontface wf atk kw items style =>
     match doDecl p lv style with
@@ -365,24 +393,17 @@ def doRule (p : Prefs) (lv sl : Nat) : Rule → Except Err Cps
       else pure []
   | .style wf selWf sels style =>
     -- `do_CSSStyleRule` (`:757-816`) with `indentSpecificities` off
-    let selectorText := doSelectorList p lv selWf sels
-    if selectorText.isEmpty || !wf then pure []
+    if (doSelectorList p lv selWf sels).isEmpty || !wf then pure []
     else match doDecl p (lv + 1) style with
       | .error e => .error e
-      | .ok styleText =>
-        if styleText.isEmpty then
-          pure (if p.keepEmptyRules then selectorText ++ p.paranthesisSpacer ++ [123, 125] else [])
-        else pure (indentblock p
-          (selectorText ++ p.paranthesisSpacer ++ [123] ++ p.lineSeparator ++ indentblock p styleText (lv + 1)
-            ++ p.lineSeparator ++ rep (lv + (if p.indentClosingBrace then 1 else 0)) p.indent ++ [125]) sl)
+      | .ok styleText => pure (styleTail p lv sl (doSelectorList p lv selWf sels) styleText)
   | .unknown r => doURule p lv r
   | .variables wf atk kw items vars =>
     -- `do_CSSVariablesRule` (`:445-468`)
-    let variablesText := doVarDecl p lv vars
-    if !variablesText.isEmpty && wf && !p.resolveVariables then
+    if !(doVarDecl p lv vars).isEmpty && wf && !p.resolveVariables then
       match atKeyword p atk kw with
       | .error e => .error e
-      | .ok k => pure (blockRule p lv k (evalItems p lv items) variablesText)
+      | .ok k => pure (blockRule p lv k (evalItems p lv items) (doVarDecl p lv vars))
     else pure []
 /-- `[r.cssText for r in rules]` -/
 def doRules (p : Prefs) (lv sl : Nat) : List Rule → Except Err (List Cps)
